@@ -41,6 +41,24 @@ Theorem C17_named_fallback_string : forall C E f id tag,
 Proof. exact named_fallback_string. Qed.
 Print Assumptions C17_named_fallback_string.
 
+(** a registration made on one instance (here: int64 -> flat codec, and the tag
+    "zz" for string): it takes precedence over the default for exactly that
+    type on that instance, named types of that kind follow it there, and an
+    instance without it keeps the default / rejects the tag *)
+Theorem C17_instance_registration : forall pt pa wn wj wb E f id,
+  let Cc := mkcfg pt pa wn wj wb true in
+  let Cd := mkcfg pt pa wn wj wb false in
+  codec_for Cc E (S f) (TInt 64) [] = Ok (CFlat 64) /\
+  codec_for Cd E (S f) (TInt 64) [] = Ok (CInt 64) /\
+  codec_for Cc E (S f) (TNamed id (TInt 64)) [] = Ok (CFlat 64) /\
+  codec_for Cd E (S f) (TNamed id (TInt 64)) [] = Ok (CInt 64) /\
+  codec_for Cc E (S f) TString s_zz = Ok CString /\
+  codec_for Cd E (S f) TString s_zz = Err /\
+  codec_for Cc E (S f) (TNamed id TString) s_zz = Ok CString /\
+  codec_for Cd E (S f) (TNamed id TString) s_zz = Err.
+Proof. intros pt pa wn wj wb E f id. destruct pt, wn, wj, wb; cbv zeta; repeat split; reflexivity. Qed.
+Print Assumptions C17_instance_registration.
+
 (** operations on other instances never change what an instance sees *)
 Theorem C17_noninterference : forall ops s i,
   nth_error (fold_left iop_step ops s) i
@@ -49,6 +67,6 @@ Proof. exact instances_noninterference. Qed.
 Print Assumptions C17_noninterference.
 
 Example C17_ex :
-  codec_for (mkcfg false false false false true) [mksdef [] [mkfdef true [84] [49;44;98;113] [] (TExt 0); mkfdef true [85] [50] [] (TExt 0)]] 5 (TStruct 0) []
+  codec_for (mkcfg false false false false true false) [mksdef [] [mkfdef true [84] [49;44;98;113] [] (TExt 0); mkfdef true [85] [50] [] (TExt 0)]] 5 (TStruct 0) []
   = Ok (CStruct [] 2 [mkfld 0 1 [84] CBQ; mkfld 1 2 [85] (CTime false)]).
 Proof. vm_compute. reflexivity. Qed.
